@@ -223,7 +223,8 @@ def check_entries(ctx, fb, re_):
 
 
 def run(ctx):
-    fbs = ctx.facts(['K17', 'K20'], kinds=('probe', 'lib'), only=r'p_async\.cpp$|p_coro\.cpp$|src/', tests=r'/test/')
+    fbs = ctx.facts(['K17', 'K20'], kinds=('probe', 'lib'), only=r'p_async\.cpp$|p_coro\.cpp$|src/', tests=r'/test/',
+                    quick_tests=r'unit/async/(future|future_functor|future_inline|make_future|make_task)\.cpp')
     re_ = ctx.rule('R-DISPATCH.entry', 'Call()/Drop() of every Core reach completion only through CallImpl; Drop '
                    'dispatches Result{StopTag}', minimum=200)
     ra = ctx.rule('R-ACCESSOR', 'every Result accessor call in Core sees exactly the matching state', minimum=100)
@@ -233,7 +234,11 @@ def run(ctx):
                   minimum=100)
     rh = ctx.rule('R-HEAD', 'a returned Task of any head kind can be started by the step (see C12)', minimum=20)
     ctx.assume('a Result delivered to a step is never Empty')
+    rmv = ctx.rule('R-MOVEOUT.site', 'a step takes the result of a flattened inner future by move only when that future '
+                   'is statically unique or provably the last observer', minimum=0)
+    from rules import lib_core
     for cfg, fb in sorted(fbs.items()):
+        lib_core.check_move_sites(ctx, fb, rmv, lambda f: f.file.endswith('algo/detail/core.hpp'))
         fns = [f for f in lib_accessor.functions_with_accessors(fb, [CORE])]
         lib_accessor.check(ctx, fb, ra, fns)
         check_dispatch(ctx, fb, rd)
